@@ -35,6 +35,7 @@ ST = 'cachelito-core/src/stats.rs'
 SR = 'cachelito-core/src/stats_registry.rs'
 CE = 'cachelito-core/src/cache_entry.rs'
 ME = 'cachelito-core/src/memory_estimator.rs'
+KY = 'cachelito-core/src/keys.rs'
 
 # 1-2 keys
 mut('m01_sep_deleted_sync', ['C02'], MU, '''                    __key_parts.push((#arg_pats).to_cache_key());
@@ -106,6 +107,12 @@ mut('m08b_fit_lt', ['C05'], G, 'if current_mem <= max_mem {', 'if current_mem < 
 mut('m08c_async_fit_ignores_new', ['C05'], A, 'if current_mem + value_size <= max_mem {', 'if current_mem <= max_mem {')
 mut('m08d_oversize_removed_async', ['C05'], A, '''            if value_size > max_mem {''', '''            if false && value_size > max_mem {''')
 mut('m09_string_len', ['C05'], ME, 'std::mem::size_of::<Self>() + self.capacity()', 'std::mem::size_of::<Self>() + self.len()')
+mut('m02c_key_precision', ['C02'], KY, 'format!("{:?}", self)', 'format!("{:.1?}", self)', 'floats that differ after the first decimal share a key')
+mut('m02d_async_part_precision', ['C02'], MU, '                __key_parts.push(format!("{:?}", #arg_pats));\n            )*', '                __key_parts.push(format!("{:.3?}", #arg_pats));\n            )*', 'async free fn: float arguments truncated to 3 decimals in the key')
+mut('m09c_vec_buffer_elem_size', ['C05'], ME, 'let buffer = self.capacity() * size_of::<T>();', 'let buffer = self.capacity() * size_of::<usize>();', 'buffer counted in words, not in elements')
+mut('m09d_option_double_counts_inline', ['C05'], ME, '.map_or(0, |val| val.estimate_memory() - size_of_val(val))', '.map_or(0, |val| val.estimate_memory())', 'payload inline size counted twice')
+mut('m09e_result_err_arm', ['C05'], ME, 'Err(err) => err.estimate_memory() - size_of_val(err),', 'Err(_) => 0,', 'heap owned by the Err payload ignored')
+mut('m09f_vec_len', ['C05'], ME, 'let buffer = self.capacity() * size_of::<T>();', 'let buffer = self.len() * size_of::<T>();', 'length, not capacity')
 mut('m09b_tuple3_forgets_field', ['C05'], ME, '''            + (self.1.estimate_memory() - size_of_val(&self.1))
             + (self.2.estimate_memory() - size_of_val(&self.2))''', '''            + (self.1.estimate_memory() - size_of_val(&self.1))''')
 # 10-11 ttl
@@ -526,6 +533,26 @@ eqv('e24_now_helper', A, '''        let timestamp = std::time::SystemTime::now()
         }
 
         // Handle entry-count limits''', 'clock read moved into a helper (helper added by apply)')
+eqv('e25_estimator_rewrites', ME, '''        let base = size_of::<Self>();
+        let buffer = self.capacity() * size_of::<T>();
+        let heap_extras: usize = self
+            .iter()
+            .map(|item| item.estimate_memory().saturating_sub(size_of_val(item)))
+            .sum();
+        base + buffer + heap_extras''', '''        let heap_extras: usize = self
+            .iter()
+            .map(|item| item.estimate_memory().saturating_sub(size_of::<T>()))
+            .sum();
+        let buffer = size_of::<T>() * self.capacity();
+        heap_extras + size_of_val(self) + buffer''', 'Vec estimator: operands reordered, size_of_val for size_of')
+eqv('e26_option_estimator_match', ME, '''        size_of::<Self>()
+            + self
+                .as_ref()
+                .map_or(0, |val| val.estimate_memory() - size_of_val(val))''', '''        size_of::<Self>()
+            + match self {
+                Some(val) => val.estimate_memory() - size_of_val(val),
+                None => 0,
+            }''', 'Option estimator written as a match')
 eqv('e20_negated_overflow', G, 'if o.len() > limit {', 'if !(o.len() <= limit) {', 'overflow test written through a negation')
 eqv('e21_negated_async_expiry', A, '                age >= ttl\n', '                !(age < ttl)\n', 'expiry test written through a negation')
 eqv('e22_negated_oversize', G, 'if new_value_size > max_mem {', 'if !(new_value_size <= max_mem) {', 'oversize test written through a negation')
